@@ -20,6 +20,7 @@ RULE = ("Hypothesis: 1-4 integer-tick well-formed single-channel sequences (arbi
         "in-force function of time signatures equals that of the saved union with 4/4 at tick 0 when nothing was saved "
         "there, the in-force function of keys equals the saved one; other sequences carry no signatures. Non-trivial: >= 2 "
         "sequences, a signature on a sequence other than the meta target, and a simultaneous event pair. Distinct by digest.")
+RULE = RULE + " Round e: signature values from a two-value pool per case (A, B, A across sequences)."
 ASSUMPTIONS = ["mido's MIDI file writer/reader is trusted", "trailing rests are not stored by the writer and not part of the statement"]
 TIERS = {"quick": dict(shards=8, examples=400, alt_ppqn=[480], alt_shards=2),
          "thorough": dict(shards=16, examples=5000, alt_ppqn=[480, 7, 1000], alt_shards=2)}
